@@ -169,6 +169,10 @@ func vWithLevel(level int, f func()) {
 	f()
 }
 
+// vFixLevels pins every HNSW insert to level 0 for the rest of the process (checks
+// whose oracle compares two instances must not let real randomness differ between them).
+func vFixLevels() { vrt.RandHook = func() float64 { return 0.999 } }
+
 // ---------------------------------------------------------------------------
 // canonical dumps of private state
 
